@@ -330,6 +330,10 @@ class Lexer:
                     "Unclosed tag: <%%%s>" % self.tag[-1].keyword,
                     **self.exception_kwargs,
                 )
+            if match.end() == match.start():
+                # empty body: match_reg() stepped over the empty match,
+                # but the closing tag begins right here
+                self.match_position = match.end()
             self.append_node(parsetree.Text, match.group(1))
             return self.match_tag_end()
         return True
